@@ -22,7 +22,7 @@ RULE = ("every Function subclass discovered in pypika.functions / pypika.analyti
         "frame bounds {none, 0, 1, 2, 10, 10^6} x {ROWS, RANGE} x one/two edges (exhaustive in both tiers), plus nested and "
         "in-statement uses; non-trivial = at least one argument or optional clause; distinct by (class, clauses, bounds)")
 
-BOUNDS = [None, 0, 1, 2, 10, 1000000]
+BOUNDS = [None, 0, 1, 2, 10, 1000000, 2.5, 0.5]   # RANGE frames take fractional offsets; the model's edges are naturals (those cases: oracle only)
 
 
 class Enc(enum.Enum):
